@@ -81,6 +81,8 @@ class Sim:
     def __init__(self, kind, connect_script=None, cb_mode="ok", status_mode="ok", drain_script=None, **client_kw):
         self.kind = kind
         self.events = []
+        self.close_raised = []
+        self.stopping = False
         self.connect_script = list(connect_script or ["ok"])     # per attempt: "ok" | "refuse" | ("slow", n_ticks) then ok
         self.attempts = 0
         self.conns = []                 # (conn id, reader, writer)
@@ -166,6 +168,8 @@ class Sim:
                 raise RuntimeError("status callback failed")
             if sim.status_mode == "slow":
                 await sim._real_sleep(0.05)
+            if sim.status_mode == "close-on-disconnect" and s.name == "DISCONNECTED":
+                await c.close()          # the user gives up on the first fault: close() from inside the status callback
         c.set_status_callback(status_cb)
 
         orig_put = c.queue.put
@@ -258,9 +262,17 @@ class Sim:
         orig_close = c.close
 
         async def close():
-            sim.emit("closeCall")
+            # close() called from inside the receive task (from the status callback that task runs) is a different event
+            # for the model: the caller is the receive task, which is then not cancelled and ends by itself
+            inside = asyncio.current_task() is getattr(c, "_receive_task", None)
+            sim.emit("closeCallInRecv" if inside else "closeCall")
             try:
                 await orig_close()
+            except BaseException as e:
+                if not sim.stopping:
+                    sim.events.append(f"--closeRaised {type(e).__name__}")
+                    sim.close_raised.append(type(e).__name__)
+                raise
             finally:
                 sim.emit("closeReturn")
         c.close = close
@@ -277,6 +289,7 @@ class Sim:
         await self._real_sleep(seconds)
 
     def stop(self):
+        self.stopping = True
         asyncio.sleep = self._real_sleep
         self.io.asyncio.open_connection = self._real_open
         self.io.serial_asyncio.open_serial_connection = self._real_serial
